@@ -39,6 +39,8 @@ class GuardCtx:
     def _objs_of_atom(self, a):
         if a[0] == "parm" and self.parm_objs is not None:
             return set(self.parm_objs.get(a[1], ()))
+        if a[0] == "this" and getattr(self, "this_objs", None):
+            return set(self.this_objs)
         o = obj_of_atom(a, self.group_params)
         return {o} if o else set()
 
@@ -95,7 +97,51 @@ class GuardCtx:
                 continue
             if self.relating(fact.cond, fact.pol, obj_a, obj_b):
                 return fact
+        return self.helper_guard_before(node, obj_a, obj_b, need_throw)
+
+    # --- guards hoisted into helpers ----------------------------------------------------------
+    def helper_guard_before(self, node, obj_a, obj_b, need_throw=False, depth=0):
+        """a call, evaluated on every path before `node`, to a repository function that cannot complete normally unless a
+        comparison relating obj_a and obj_b holds (e.g. a private _check_size(rhs) helper)"""
+        if self.prog is None or depth > 1:
+            return None
+        for c in self.fn.walk():
+            if not (c.is_call() and c.callee and c.callee.get("repo")):
+                continue
+            if c.k in ("CXXConstructExpr", "CXXTemporaryObjectExpr"):
+                continue
+            g = self.prog.functions.get(c.callee.get("usr"))
+            if g is None or g.usr == self.fn.usr or len(g.params) > 4 or g.get("nodes", 0) > 400:
+                continue
+            if not self.fn.precedes(c, node):
+                continue
+            args = c.call_args()
+            pmap = {}
+            for i, prm in enumerate(g.params):
+                if i < len(args):
+                    pmap[prm["n"]] = self.objs(args[i]) | self.base_objs(args[i])
+            obj = c.call_object()
+            this_objs = set()
+            if obj is not None and "cls" in c.callee and not c.callee.get("static"):
+                this_objs = self.objs(obj) | self.base_objs(obj)
+            key = (g.usr, tuple(sorted((k, tuple(sorted(v))) for k, v in pmap.items())), tuple(sorted(this_objs)), obj_a, obj_b, need_throw)
+            cache = self.__class__._helper_cache
+            if key not in cache:
+                cache[key] = None
+                hctx = GuardCtx(self.prog, g, group_params=False, parm_objs=pmap)
+                hctx.this_objs = this_objs
+                g.blocks
+                for fact in g.facts_at_block(g.exit, normal_exit=True):
+                    if fact.belief or not fact.rejects_by_throw:
+                        continue
+                    if hctx.relating(fact.cond, fact.pol, obj_a, obj_b):
+                        cache[key] = fact
+                        break
+            if cache[key] is not None:
+                return cache[key]
         return None
+
+    _helper_cache = {}
 
     # --- accesses -----------------------------------------------------------------------------
     def subscripts(self):
